@@ -353,7 +353,9 @@ fn history(cx: &mut Ctx, cell: &CellDef, ops: &[Op], force_coq: bool) {
     }
     let slot = match kind { Kind::Patricia => 0, Kind::Sparse => 1, Kind::Louds => 2, Kind::CritBit => 3, _ => 9 };
     let modelled = slot < 4 && cell.status != "S-only";
-    if modelled && coq_ok && obs.len() == ops.len() && (force_coq || cx.used[slot] < cx.budget[slot]) {
+    // evaluating the model's 256-way DFS over several hundred nodes inside Coq is slow: keys beyond 100 bytes are oracle-only
+    let short_enough = force_coq || ops.iter().all(|(_, k)| k.len() <= 100);
+    if modelled && coq_ok && short_enough && obs.len() == ops.len() && (force_coq || cx.used[slot] < cx.budget[slot]) {
         cx.used[slot] += 1;
         let ops_coq: Vec<String> = ops.iter().enumerate().map(|(i, (o, k))| format!("({}, {})", if unavailable.contains(&i) { 9 } else { *o }, coq_key(k))).collect();
         let term = format!("({}, [{}], [{}])", slot, ops_coq.join("; "), obs.join("; "));
